@@ -369,7 +369,7 @@ func redactPipelineStage(stage interface{}, redactFieldNames bool, keyPath []str
 							newMap.Set(redactedKey, redactScalarValue([]string{k}, v, inSearchStage, false))
 						}
 					} else {
-						newMap.Set(redactedKey, v)
+						newMap.Set(redactedKey, redactFieldNameArgument(v, newKeyPath, inSearchStage))
 					}
 					continue
 				case Namespace:
@@ -451,7 +451,7 @@ func redactPipelineStage(stage interface{}, redactFieldNames bool, keyPath []str
 											newSubMap.Set(subK, redactScalarValue([]string{k}, subV, inSearchStage, false))
 										}
 									} else {
-										newSubMap.Set(subK, subV)
+										newSubMap.Set(subK, redactFieldNameArgument(subV, append(newKeyPath, subK), inSearchStage))
 									}
 									continue
 								case Namespace:
@@ -531,6 +531,25 @@ func redactPipelineStage(stage interface{}, redactFieldNames bool, keyPath []str
 		return redactArrayValues(s, redactFieldNames, inSearchStage, isSelectivelyRedactable, keyPath)
 	default:
 		return stage
+	}
+}
+
+// redactFieldNameArgument handles the argument of a FieldName-typed operator when
+// field-name redaction is off: the field names themselves (strings) are kept, but an
+// argument may also be an expression document (e.g. $replaceRoot.newRoot, $bucket.groupBy,
+// $sortByCount), whose literals still have to be redacted.
+func redactFieldNameArgument(v interface{}, keyPath []string, inSearchStage bool) interface{} {
+	switch vTyped := v.(type) {
+	case *orderedmap.OrderedMap[string, any]:
+		return redactPipelineStage(vTyped, false, keyPath, inSearchStage)
+	case []any:
+		redacted := make([]any, len(vTyped))
+		for i, item := range vTyped {
+			redacted[i] = redactFieldNameArgument(item, keyPath, inSearchStage)
+		}
+		return redacted
+	default:
+		return v
 	}
 }
 
